@@ -38,6 +38,15 @@ theorem log_decisions (P : Program) (S : Scheduler σ) (ms : MaxSteps) (seed : N
   · simp [initState] at h
   · exact h
 
+/-- Conversely, every `Decision` taken at a loop head reached within the loop fuel is in the log: the `dec`
+events of the log are exactly the scheduling decisions of the execution. -/
+theorem decisions_logged (P : Program) (S : Scheduler σ) (ms : MaxSteps) (seed : Nat) (s : σ) (fuel segFuel : Nat)
+    (m : Nat) (st : ExecState P σ) (ev : Ev) (hr : ReachN S segFuel m (initState P ms seed s) st)
+    (hd : Decision S segFuel (initState P ms seed s) st ev) (hfuel : m < fuel) :
+    ev ∈ (execute P S ms seed s fuel segFuel).st.log.toList := by
+  rw [execute_eq]
+  exact decision_logged (LoopInv.init P ms seed s) hr hd fuel hfuel
+
 section per_decision
 variable {S : Scheduler σ} {segFuel : Nat} {st0 st : ExecState P σ}
   {off : List Nat} {cur : Option Nat} {y : Bool} {ch : Option Nat}
@@ -176,6 +185,15 @@ theorem chosen_runs_next {ms : MaxSteps} (S : Scheduler σ) (segFuel : Nat) {st 
   obtain ⟨_, ts, _, rfl⟩ := finishSeg_inr hb
   exact ⟨rfl, rfl⟩
 
+/-- **chosen_runs_next**, task state: when the chosen task's segment starts the task is `Runnable` — a
+spuriously woken (`Blocked{allow_spurious_wakeups}`) task has been unblocked by `schedule()` — and no other
+task's state was touched. -/
+theorem chosen_task_runnable (st : ExecState P σ) (t : Nat) (s' : σ) (hmem : t ∈ st.k.offered) :
+    (∃ tk, (segStart st t s').k.tasks[t]? = some tk ∧ tk.state = .runnable) ∧
+    (∀ i, i ≠ t → (segStart st t s').k.tasks[i]? = st.k.tasks[i]?) ∧
+    (∀ tk, st.k.tasks[t]? = some tk → tk.state = .runnable → (segStart st t s').k.tasks = st.k.tasks) :=
+  segStart_tasks st t s' hmem
+
 /-- a scheduler answering with a task that was not offered makes `schedule()` panic (`unwrap`/`assert!`) -/
 theorem choice_not_offered_panics {ms : MaxSteps} (S : Scheduler σ) (segFuel : Nat) {st : ExecState P σ}
     (hi : LoopInv ms st) (hc : Consults st.k) {t : Nat} {s' : σ}
@@ -226,6 +244,21 @@ theorem stopped_only_by_none (P : Program) (S : Scheduler σ) (ms : MaxSteps) (s
   generalize execute P S ms seed s fuel segFuel = r at h hf
   cases hf with
   | choseNone s' h1 h2 => exact ⟨stf.k.offered, stf.k.current.id, stf.k.hasYielded, by simp [decEv]⟩
+  | seg t s' p r h1 h2 h3 h4 h5 =>
+    obtain ⟨_, ho, _⟩ := finishSeg_inl h5
+    rw [h] at ho
+    rcases ho with ho | ⟨_, ho⟩ | ⟨_, ho, _⟩ | ⟨_, ho⟩ <;> cases ho
+  | _ => cases h
+
+/-- `StepError::SchedulingError` ("no task was scheduled. This indicates an issue with the scheduler") is
+unreachable, whatever the scheduler does: `advance_to_next_task` never leaves `current_task = None`, and (model
+bookkeeping) every task id the loop runs has a continuation. -/
+theorem no_scheduling_error (P : Program) (S : Scheduler σ) (ms : MaxSteps) (seed : Nat) (s : σ)
+    (fuel segFuel : Nat) : (execute P S ms seed s fuel segFuel).outcome ≠ .schedulingError := by
+  obtain ⟨stf, _, hi, hf⟩ := execute_final P S ms seed s fuel segFuel
+  intro h
+  generalize execute P S ms seed s fuel segFuel = r at h hf
+  cases hf with
   | seg t s' p r h1 h2 h3 h4 h5 =>
     obtain ⟨_, ho, _⟩ := finishSeg_inl h5
     rw [h] at ho
